@@ -134,8 +134,15 @@ def run(tier, rnd, out):
     run_stream(out, "operations-with-slow-replies", cs, world.run_cases_fresh(world.with_delays(rnd, cs)))
     tcp = [c for c in oc.mixed_cases(rnd, 3 if tier == "quick" else 25) if all(len(r) > 0 for r in c["replies"])]
     run_stream(out, "operations-over-tcp", tcp, asyncio.run(oc.run_tcp(tcp)))
+    seqs = oc.odd_length_sequences(rnd, 6 if tier == "quick" else 80)
+    texts = asyncio.run(oc.run_tcp_sequences(seqs))
+    run_stream(out, "sequences-on-one-tcp-connection-replies-with-odd-length-fields", [c for s_ in seqs for c in s_], texts)
     out.notes.append("frames are observed at writer.write (in-process stream) and, for the tcp stream, as received by a fake device")
 
 
 def replay(rp, out):
+    if "one-tcp-connection" in rp.get("stream", ""):
+        import random
+        seqs = oc.odd_length_sequences(random.Random(int(rp.get("seed", 1))), 40)
+        return run_stream(out, rp["stream"], [c for s_ in seqs for c in s_], asyncio.run(oc.run_tcp_sequences(seqs)))
     c = rp["input"]; run_stream(out, rp.get("stream", "replay"), [c], world.run_cases_fresh([c]))
